@@ -46,10 +46,24 @@ def slash_number_currency_hazard(v: core.Violation, sess: Any, op: Optional[dict
     return False
 
 
+def unindented_comment_in_block(v: core.Violation, sess: Any, op: Optional[dict]) -> bool:
+    """An unindented comment is an entry of an indented meta / postings list and a real item follows it."""
+    if sess is None:
+        return False
+    for _, node in W.iter_nodes(sess.root):
+        if isinstance(node, I.Repeated) and not isinstance(sess.root._directives, type(None)) and node is not sess.root._directives:
+            items = node.items
+            for i, it in enumerate(items):
+                if isinstance(it, models.BlockComment) and it.indent == '' and any(not isinstance(x, models.BlockComment) for x in items[i + 1:]):
+                    return True
+    return False
+
+
 PREDICATES: dict[str, Callable[[core.Violation, Any, Optional[dict]], bool]] = {
     'txn_comment_after_last_meta': txn_comment_after_last_meta,
     'number_comma_digit_hazard': number_comma_digit_hazard,
     'slash_number_currency_hazard': slash_number_currency_hazard,
+    'unindented_comment_in_block': unindented_comment_in_block,
 }
 
 _OPEN: Optional[list[dict]] = None
